@@ -19,37 +19,48 @@ Lemma tool_codecs_are_utf8 :
   c_pyfile the_codecs = Utf8 /\ c_cdef the_codecs = Utf8 /\ c_csrc the_codecs = Utf8 /\ c_output the_codecs = Utf8.
 Proof. repeat split; reflexivity. Qed.
 
+(* both output branches hand the generated text over in one write — where a rewrite of write_c_source
+   (line-by-line printing, ...) breaks the proofs below *)
+Lemma tool_writers_write_all : w_stdout the_writers = WriteAll /\ w_file the_writers = WriteAll.
+Proof. split; reflexivity. Qed.
+
+Lemma write_out_tool to_stdout s : write_out the_writers the_codecs to_stdout s = write_text Utf8 s.
+Proof.
+  unfold write_out. destruct tool_writers_write_all as [-> ->].
+  destruct tool_codecs_are_utf8 as [_ [_ [_ ->]]]. destruct to_stdout; reflexivity.
+Qed.
+
 Section Pipelines.
 Variable ffi : Type.
 Variable make_ffi : str -> str -> str -> ffi.
 Variable find_ffi : str -> str -> option ffi.
 Variable emit : ffi -> str.
 
-Theorem read_sources_is_direct : forall name cdef csrc bc bs,
+Theorem read_sources_is_direct : forall to_stdout name cdef csrc bc bs,
   utf8_encode cdef = Some bc -> utf8_encode csrc = Some bs ->
-  gen_src_read_sources ffi make_ffi emit the_codecs name bc bs =
+  gen_src_read_sources ffi make_ffi emit the_codecs the_writers to_stdout name bc bs =
   direct ffi make_ffi emit name (universal_nl cdef) (universal_nl csrc).
 Proof.
-  intros name cdef csrc bc bs Hc Hs. unfold gen_src_read_sources, direct.
-  destruct tool_codecs_are_utf8 as [_ [-> [-> ->]]].
-  rewrite (read_text_of_encoded _ _ Hs), (read_text_of_encoded _ _ Hc). reflexivity.
+  intros to_stdout name cdef csrc bc bs Hc Hs. unfold gen_src_read_sources, direct.
+  destruct tool_codecs_are_utf8 as [_ [Ec [Es _]]]. rewrite Ec, Es.
+  rewrite (read_text_of_encoded _ _ Hs), (read_text_of_encoded _ _ Hc). apply write_out_tool.
 Qed.
 
-Corollary read_sources_is_direct_no_cr : forall name cdef csrc bc bs, no_cr cdef -> no_cr csrc ->
+Corollary read_sources_is_direct_no_cr : forall to_stdout name cdef csrc bc bs, no_cr cdef -> no_cr csrc ->
   utf8_encode cdef = Some bc -> utf8_encode csrc = Some bs ->
-  gen_src_read_sources ffi make_ffi emit the_codecs name bc bs = direct ffi make_ffi emit name cdef csrc.
+  gen_src_read_sources ffi make_ffi emit the_codecs the_writers to_stdout name bc bs = direct ffi make_ffi emit name cdef csrc.
 Proof.
-  intros name cdef csrc bc bs Nc Ns Hc Hs. rewrite (read_sources_is_direct _ _ _ _ _ Hc Hs).
+  intros to_stdout name cdef csrc bc bs Nc Ns Hc Hs. rewrite (read_sources_is_direct to_stdout _ _ _ _ _ Hc Hs).
   rewrite !universal_nl_id; auto.
 Qed.
 
-Theorem exec_python_is_direct : forall script var b, utf8_encode script = Some b ->
-  gen_src_exec_python ffi find_ffi emit the_codecs b var =
+Theorem exec_python_is_direct : forall to_stdout script var b, utf8_encode script = Some b ->
+  gen_src_exec_python ffi find_ffi emit the_codecs the_writers to_stdout b var =
   direct_of_script ffi find_ffi emit (universal_nl script) var.
 Proof.
-  intros script var b H. unfold gen_src_exec_python, direct_of_script.
-  destruct tool_codecs_are_utf8 as [-> [_ [_ ->]]].
-  rewrite (read_text_of_encoded _ _ H). reflexivity.
+  intros to_stdout script var b H. unfold gen_src_exec_python, direct_of_script.
+  destruct tool_codecs_are_utf8 as [-> [_ [_ _]]].
+  rewrite (read_text_of_encoded _ _ H). destruct (find_ffi (universal_nl script) var); auto. apply write_out_tool.
 Qed.
 
 (* the bytes written decode back to exactly the text cffi generated *)
@@ -59,12 +70,12 @@ Theorem output_decodes_to_emitted : forall name cdef csrc out,
 Proof. intros name cdef csrc out H. unfold direct, write_text in H. apply utf8_roundtrip. auto. Qed.
 
 (* undecodable input files are rejected, nothing is written *)
-Theorem undecodable_input_rejected : forall name bc bs,
+Theorem undecodable_input_rejected : forall to_stdout name bc bs,
   utf8_decode bc = None \/ utf8_decode bs = None ->
-  gen_src_read_sources ffi make_ffi emit the_codecs name bc bs = None.
+  gen_src_read_sources ffi make_ffi emit the_codecs the_writers to_stdout name bc bs = None.
 Proof.
-  intros name bc bs [H|H]; unfold gen_src_read_sources, read_text;
-    destruct tool_codecs_are_utf8 as [_ [-> [-> ->]]]; unfold decode_with; rewrite H; auto.
+  intros to_stdout name bc bs [H|H]; unfold gen_src_read_sources, read_text;
+    destruct tool_codecs_are_utf8 as [_ [-> [-> _]]]; unfold decode_with; rewrite H; auto.
   destruct (utf8_decode bs); auto.
 Qed.
 
@@ -72,7 +83,7 @@ Qed.
 Theorem utf8sig_input_loses_bom :
   let cs := {| c_pyfile := Utf8; c_cdef := Utf8; c_csrc := Utf8Sig; c_output := Utf8 |} in
   exists cdef csrc bc bs, utf8_encode cdef = Some bc /\ utf8_encode csrc = Some bs /\
-    gen_src_read_sources str (fun n c s => c ++ s) (fun x => x) cs [109] bc bs <>
+    gen_src_read_sources str (fun n c s => c ++ s) (fun x => x) cs the_writers false [109] bc bs <>
     direct str (fun n c s => c ++ s) (fun x => x) [109] cdef csrc.
 Proof.
   exists [105], [65279; 120], [105], [239;187;191;120]. vm_compute. repeat split; discriminate.
